@@ -862,9 +862,7 @@ Qed.
 
 (* ================================================================ the preconditions, in source terms *)
 Lemma parallelism_pos_iff_proof c :
-  1 <= parallelism c <->
-  (1 <= match threads c with Some t => t | None => cpu c end)%Z /\
-  match len_hint c with Some n => 1 <= n | None => True end.
+  1 <= parallelism c <-> match len_hint c with Some n => 1 <= n | None => True end.
 Proof.
   unfold parallelism, parallelism_z.
   destruct (len_hint c) as [n|]; destruct (threads c) as [t|]; split; intros; try split; try lia.
@@ -903,25 +901,12 @@ Proof.
 Qed.
 
 (* ================================================================ the full statement is false of the code *)
-Definition cfg_no_workers : cfg :=
-  {| items := [1%N]; iter_raises := false; len_hint := Some 1; threads := Some 0%Z; cpu := 16%Z;
-     mode := Gen; fout := fun _ => Ok [] |}.
 Definition cfg_worker_death : cfg :=
   {| items := [1%N; 2%N]; iter_raises := false; len_hint := Some 2; threads := Some 1%Z; cpu := 16%Z;
      mode := Gen; fout := tabf [(1%N, Die)] |}.
 
 Lemma perm_length_neq {A} (l1 l2 : list A) : length l1 <> length l2 -> ~ Permutation l1 l2.
 Proof. intros H P. apply Permutation_length in P. contradiction. Qed.
-
-Theorem exactly_once_full_refuted_proof : ~ exactly_once_full.
-Proof.
-  intro H.
-  assert (R : run state label (stepf cfg_no_workers) (init cfg_no_workers) [LPut 1%N; LRet]
-              = Some {| pc := MDone; q := [Some 1%N]; ws := []; processed := []; results := []; kill := false |})
-    by (vm_compute; reflexivity).
-  apply trace_sound_proof in R. specialize (H _ _ R (conj eq_refl eq_refl)).
-  revert H. apply perm_length_neq. cbn. discriminate.
-Qed.
 
 Theorem exactly_once_worker_death_refuted_proof :
   exists c s, 1 <= parallelism c /\ reachable c s /\ returned c s /\ ~ Permutation (processed s) (items c).
@@ -933,6 +918,25 @@ Proof.
     vm_compute. reflexivity.
   - split; reflexivity.
   - apply perm_length_neq. cbn. discriminate.
+Qed.
+
+Theorem exactly_once_full_refuted_proof : ~ exactly_once_full.
+Proof.
+  intro H. destruct exactly_once_worker_death_refuted_proof as (c & s & _ & R & T & NP).
+  exact (NP (H c s R T)).
+Qed.
+
+(* a functor that never raises and an iterable whose len() (if any) is truthful: no further
+   precondition, for every thread count (threads=0 and negative values included) *)
+Theorem exactly_once_never_raising_proof : forall c s, reachable c s -> returned c s ->
+  (forall x, fout c x <> Die) ->
+  match len_hint c with Some n => n = length (items c) | None => True end ->
+  Permutation (processed s) (items c).
+Proof.
+  intros c s R T ND L. apply (exactly_once_proof c s R T).
+  apply pool_adequate_simple_proof; [exact ND|].
+  destruct (items c) as [|x l] eqn:E; [right; reflexivity | left].
+  apply parallelism_pos_iff_proof. destruct (len_hint c); [subst; cbn; lia | exact Logic.I].
 Qed.
 
 (* ---- the hypotheses are satisfiable by non-trivial values *)
